@@ -17,7 +17,7 @@ import (
 func init() {
 	register(&Spec{ID: "C10", Title: "No server input can crash the client", Run: runC10,
 		Meta: core.Meta{
-			Explanation: "Panic-site obligations over everything reachable from the reader goroutine. Scope: module functions reachable (VTA call graph, plus formatting edges: every String/Error method of the parsing packages) from (*Conn).ReadFrom, (*Channel).WritePacket, DataType.GoValue and rsaEncrypt; generated stringer files are excluded. R10.1: every slice/string index and every slice expression in scope is proved in range from length facts (allocation, constant-bound slicing, callee post-conditions, dominating len tests, lowered `switch len(bs)`), from induction/range-loop patterns, or is listed in the reviewed-invariant table together with the guard it relies on, which is re-checked on every run; a site that is neither is a violation (so a new unguarded index and the removal of an existing guard are both reported). R10.2: every encoding/binary ByteOrder UintN/PutUintN call (interface calls the compiler's bounds-check list does not contain) has len >= N. R10.3: no comma-less type assertion, explicit panic, or division by a possibly-zero value in scope. R10.4 (allocation provenance): the size of every make([]T, n) in scope is a constant, a length of received data, a <= 16-bit wire integer, or is dominated by a test against the bytes actually available; wire-controlled sizes that can be negative are violations. R10.5: the callee post-condition used by R10.1/R10.2 — PacketQueue.Bytes returns a slice of exactly n bytes on every return — is verified structurally; the DataType length oracle's premises (goValue's only caller is GoValue, behind the ByteSize test) are verified. R10.6: precision and scale copied from the wire into a Decimal are validated (sanity) before the value leaves the parser. R10.7: every loop in a wire-reading function performs a wire read per iteration or iterates over data already held. R10.8: a slice of pointers/interfaces allocated from a wire count and filled in a counted loop is filled completely before the parse can succeed (the loop's only normal exit is `i < n` turning false), so no nil entry is dereferenced by a later package. R10.11 = R07.1: every wire read reports a short read as ErrNotEnoughBytes and never as success — an io.Reader over the queue that answers (n, nil) without data makes bytes.Buffer.ReadFrom (TokenlessPackage) grow without bound from a one-byte input. R10.9: the format pointers ParamsPackage.paramFmt/rowFmt, which come from whatever package the server sent before, are only dereferenced under a != nil test of that field.",
+			Explanation: "Panic-site obligations over everything reachable from the reader goroutine. Scope: module functions reachable (VTA call graph, plus formatting edges: every String/Error method of the parsing packages) from (*Conn).ReadFrom, (*Channel).WritePacket, DataType.GoValue and rsaEncrypt; generated stringer files are excluded. R10.1: every slice/string index and every slice expression in scope is proved in range from length facts (allocation, constant-bound slicing, callee post-conditions, dominating len tests, lowered `switch len(bs)`), from induction/range-loop patterns, or is listed in the reviewed-invariant table together with the guard it relies on, which is re-checked on every run; a site that is neither is a violation (so a new unguarded index and the removal of an existing guard are both reported). R10.2: every encoding/binary ByteOrder UintN/PutUintN call (interface calls the compiler's bounds-check list does not contain) has len >= N. R10.3: no comma-less type assertion, explicit panic, or division by a possibly-zero value in scope. R10.4 (allocation provenance): the size of every make([]T, n) in scope is a constant, a length of received data, a <= 16-bit wire integer, or is dominated by a test against the bytes actually available; wire-controlled sizes that can be negative are violations. R10.5: the callee post-condition used by R10.1/R10.2 — PacketQueue.Bytes returns a slice of exactly n bytes on every return — is verified structurally; the DataType length oracle's premises (goValue's only caller is GoValue, behind the ByteSize test) are verified. R10.6: precision and scale copied from the wire into a Decimal are validated (sanity) before the value leaves the parser. R10.7: every loop in a wire-reading function performs a wire read per iteration or iterates over data already held. R10.8: a slice of pointers/interfaces allocated from a wire count and filled in a counted loop is filled completely before the parse can succeed (the loop's only normal exit is `i < n` turning false), so no nil entry is dereferenced by a later package. R10.11 = R07.1: every wire read reports a short read as ErrNotEnoughBytes and never as success — an io.Reader over the queue that answers (n, nil) without data makes bytes.Buffer.ReadFrom (TokenlessPackage) grow without bound from a one-byte input. R10.12: NextPackageUntil's self-calls are depth-bounded — a nil callback is passed only under processPkg != nil, and nil mode recurses with a function literal — so a server that never sends DONE(FINAL) cannot grow the stack with every package. R10.9: the format pointers ParamsPackage.paramFmt/rowFmt, which come from whatever package the server sent before, are only dereferenced under a != nil test of that field.",
 			NotDecided:  "Nil dereferences (nilaway's two reports on the pinned tree are infeasible), panics inside the standard library, stack exhaustion and unbounded CPU are not decided.",
 			Assumptions: []string{"the reviewed-invariant table entries (each with the guard it names)", "math/big, bytes, encoding/binary do not panic on the inputs they are given"},
 		}})
@@ -122,6 +122,8 @@ func runC10(r *core.Run) {
 	r.Rule("R10.7", "parser loops consume input or range over data already held", 8, false)
 	r.Rule("R10.10", "the server's public key: the PEM block is used only where it is known non-nil (R08.9)", 1, false)
 	defer c08PemBlock(r, "R10.10")
+	r.Rule("R10.12", "the depth of NextPackageUntil's self-recursion does not depend on what the server sends", 1, false)
+	defer c10RecursionBounded(r)
 	r.Rule("R10.11", "no reader reports success for bytes it did not have: every short read is ErrNotEnoughBytes (E-ERR, all call sites)", 213, true)
 	defer func() { errSites(r, newErrFlow(p), "R10.11") }()
 
@@ -1160,3 +1162,41 @@ func c10FormatPointers(r *core.Run) {
 }
 
 func addrOf(v ssa.Value) ssa.Value { return v }
+
+// c10RecursionBounded: R10.12. NextPackageUntil calls itself to drain a response. The depth must not depend on what
+// the server sends: a self-call that passes a nil callback is only made from an invocation whose own callback is
+// non-nil (nil mode never recurses in nil mode again), and the callback nil mode passes on is a function literal of its
+// own. Otherwise every package that is not the final DONE adds a stack frame and a server that never sends DONE(FINAL)
+// overflows the goroutine stack (a fatal error that cannot be recovered).
+func c10RecursionBounded(r *core.Run) {
+	p := r.Prog
+	fn := p.Func("tds", "Channel", "NextPackageUntil")
+	cb := fn.Params[len(fn.Params)-1]
+	n := 0
+	for _, c := range callsTo(fn, fn) {
+		n++
+		arg := c.Common().Args[len(c.Common().Args)-1]
+		key := "NextPackageUntil: recursion depth is bounded"
+		switch {
+		case core.IsNil(arg):
+			under := false
+			for _, g := range core.GuardsAt(c.(ssa.Instruction)) {
+				if bo, ok := g.Cond.(*ssa.BinOp); ok && bo.X == ssa.Value(cb) && core.IsNil(bo.Y) {
+					if (bo.Op == token.EQL && !g.Pol) || (bo.Op == token.NEQ && g.Pol) {
+						under = true
+					}
+				}
+			}
+			r.Check(under, "R10.12", key, c.Pos(), "nil-callback drain started only from an invocation with a callback", "NextPackageUntil calls itself with a nil callback from its own nil-callback mode: every package that is not DONE(FINAL) adds a stack frame, and a server that keeps sending packages overflows the stack (fatal, not recoverable)")
+		case arg == ssa.Value(cb):
+			r.Bad("R10.12", key, c.Pos(), "NextPackageUntil calls itself with its own callback: the depth of the recursion is the number of packages received")
+		default:
+			_, isLit := arg.(*ssa.MakeClosure)
+			_, isFn := arg.(*ssa.Function)
+			r.Check(isLit || isFn, "R10.12", key, c.Pos(), "drain with a function literal as callback (that invocation does not take the nil branch)", "the callback handed to the recursive call is "+core.Expr(arg)+": it cannot be shown to be non-nil")
+		}
+	}
+	if n == 0 {
+		r.OK("R10.12", "NextPackageUntil: recursion depth is bounded", fn.Pos(), "no self-call")
+	}
+}
